@@ -41,7 +41,8 @@ CFG = {
         "C08_eqdc_sphere_inv_south", "C08_aea_sphere_inv_south", "lcc_chain", "C08_lcc_sphere_inv", "C08_lcc_inv_of_converged",
         "aea_chain", "C08_aea_inv_of_converged", "C08_tmerc_sphere_inv", "C08_geodetic_fixed", "C08_geodetic_roundtrip_h0", "C08_krovak_lat_fixed", "krovak_rotation", "C08_krovak_sphere_chain_inv",
         "logTs_strictAnti", "tsfnz_injective", "C08_phi2z_fixed_unique", "merc_chain", "C08_merc_ell_inv_exact", "C08_lcc_inv_exact",
-        "mlfn_strictMono", "C08_imlfn_fixed_unique", "eqdc_chain", "C08_eqdc_inv_exact"]] + [
+        "mlfn_strictMono", "C08_imlfn_fixed_unique", "eqdc_chain", "C08_eqdc_inv_exact",
+        "qOf_strictMono", "C08_aeaPhi1z_fixed_unique", "C08_aea_inv_exact"]] + [
         # tie T1: model = definitions regenerated from the current Go source (rfl)
         T + "Ties." + n for n in ["tie_initMerc", "tie_fwdMerc", "tie_invMerc", "tie_initLcc", "tie_fwdLcc", "tie_invLcc",
                                   "tie_initAea", "tie_fwdAea", "tie_invAea", "tie_aeaPhi1zStep", "tie_initEqdc", "tie_fwdEqdc",
